@@ -319,6 +319,11 @@ func (wf *Workflow) runProcs(procs map[string]WorkflowProcess) {
 
 	vhook("run.start")
 	for _, proc := range procs {
+		if proc == wf.driver {
+			// The driver process is run in the main go-routine below, and
+			// must not be started a second time here
+			continue
+		}
 		Debug.Printf(wf.name+": Starting process (%s) in new go-routine", proc.Name())
 		go proc.Run()
 	}
